@@ -446,3 +446,13 @@ for name in ("c10_bogus_level_word_all_ones", "c10_bogus_level_word_bit26", "c10
         H(prop, "quick", "c10", name, timeout=1800, model="Havoc16", unwind=40, encodes=["hss::aux::hss_expand_aux_data"],
           forall="level word concrete per instance (0xffffffff, 0x84000000, 0xc0000002: bits no real key produces), every other byte of a 40-byte buffer, with / without seed",
           bounds="cap 40 bytes")
+
+# LM-OTS message-digest / candidate pre-images observed through the first and the last query of a whole
+# signing / verification run (digests havoc, chains one havoc step)
+for name, tier in (("c07_ots_preimage_ends_n16_w8", "quick"), ("c07_ots_preimage_ends_n32_w8", "thorough")):
+    for prop in ("C07", "C01", "C02"):
+        H(prop, tier, "c08d", name, config="w8", timeout=3600, unwind=70,
+          model="RecEndsN: first and last digest query recorded (head, length), all queries counted; digests havoc; Winternitz chain one havoc step",
+          encodes=["LmotsSignature::sign / sign_core / calculate_message_hash / calculate_signature", "lm_ots::verify::generate_public_key_candidate"],
+          forall="every chain start value / signature value, identifier, leaf index, randomizer, message of length 0..5: Q pre-image I|q|0x8181|C|message for signer and verifier, "
+                 "Kc pre-image I|q|0x8080|... of length 22 + p n, p chains each", bounds="message <= 5 bytes; W8; the digit-driven chain positions are not observed")
